@@ -76,7 +76,7 @@ def r2_fill_defaults(R) -> None:
               and is_underscore_key(dict_slot(n.ast.targets[0])[1]) is not None]
     want = {'bool': ('False', 'bool'), 'np.integer': ('0', 'int'), 'str': ("''", 'str')}
     if stores and is_call(stores[0].ast.value, 'np.full', 'numpy.full') and len(stores[0].ast.value.args) >= 2:
-        se = SymExec(f.fi.node)
+        se = f.symexec()
         st = stores[0].ast
         nm_key = text(is_underscore_key(dict_slot(st.targets[0])[1]))
         fill = canon(se.value(st, st.value.args[1]))
